@@ -728,9 +728,18 @@ def main():
     if "--one" in args:
         i = args.index("--one")
         root, j = args[i + 1], json.loads(args[i + 2])
+        def strip(x):
+            if isinstance(x, dict):
+                return {k: strip(v) for k, v in x.items() if not any(k.startswith(pfx) for pfx in ("xUnknown", "_vendorExt", "zz9", "futureProperty"))}
+            if isinstance(x, list):
+                return [strip(v) for v in x]
+            return x
         S.valid_stream = lambda: iter([(root, "replay", j)])
-        S.extras_stream = lambda: iter([])
-        S.malformed_stream = lambda: iter([])
+        S.extras_stream = lambda: iter([(root, "replay", strip(j), j)])
+        S.malformed_stream = lambda: iter([(root, "replay", "?", j)])
+        if root not in S.root_type:
+            S.root_type[root] = {"kind": "reference", "name": root}
+            S.root_kind[root] = "structure"
     if prop in ("C01", "C03", "C14"):
         run_c01_c03_c14(prop, S, out)
     elif prop == "C02":
